@@ -428,9 +428,11 @@ func (rc *roundCheck) run() {
 		laneLast := map[int]int{}
 		for _, me := range evs {
 			m := me.r.Msg
-			if !me.cap.silent {
+			// (which of several claimants of a removal on a key written by several writers made
+			// it is not determined: those events do not take part in the same-writer order check)
+			if !me.cap.silent && !(me.cap.del && contended(k)) {
 				if last, ok := laneLast[me.cap.ex.Lane]; ok && me.cap.ex.Idx < last {
-					rc.fail("order:same-writer-same-key-reordered:"+rc.mode(), fmt.Sprintf("key %s: the event of %s arrived after the event of a later request of the same writer", k, me.cap.ex.label()), viewOf(me.r))
+					rc.fail("order:same-writer-same-key-reordered:"+rc.mode(), fmt.Sprintf("key %s: the event of %s arrived after the event of a later request of the same writer", k, me.cap.ex.label()), rc.dumpKey(k))
 				}
 				laneLast[me.cap.ex.Lane] = me.cap.ex.Idx
 			}
@@ -474,8 +476,9 @@ func (rc *roundCheck) run() {
 				cur.Val = valOf(m.GetTreasure())
 			case hydrapb.Status_DELETED:
 				x := valOf(m.GetDeletedTreasure())
-				if !present && lastDeleted != "" && x == lastDeleted {
-					rc.fail("duplicate:DELETED:one-removal-reported-twice:"+me.cap.ex.Op.K+":"+rc.mode(), fmt.Sprintf("key %s: second DELETED event for the same removed value %s (the key was not re-created in between)", k, x), rc.dumpWith(me.r))
+				if !present && lastDeleted != "" && (x == lastDeleted || x == "") {
+					// (the second report of a record that had been written to disk carries an emptied body)
+					rc.fail("duplicate:DELETED:one-removal-reported-twice:"+me.cap.ex.Op.K+":"+rc.mode(), fmt.Sprintf("key %s: second DELETED event (value %q) right after the DELETED event for %s; the key was not re-created in between", k, x, lastDeleted), rc.dumpWith(me.r))
 					continue
 				}
 				if !present {
@@ -484,7 +487,7 @@ func (rc *roundCheck) run() {
 					continue
 				}
 				if x != cur.Val {
-					rc.fail("payload:DELETED:value-is-not-the-removed-one:"+me.cap.ex.Op.K+":"+rc.mode(), fmt.Sprintf("key %s: DELETED event carries %s, by the preceding events the key held %s", k, x, cur.Val), viewOf(me.r))
+					rc.fail("payload:DELETED:value-is-not-the-removed-one:"+me.cap.ex.Op.K+":"+rc.mode(), fmt.Sprintf("key %s: DELETED event carries %s, by the preceding events the key held %s", k, x, cur.Val), rc.dumpKey(k))
 				}
 				if !emptyTreasure(m.GetTreasure()) || !emptyTreasure(m.GetOldTreasure()) {
 					rc.fail("payload:DELETED:new-or-old-not-empty", fmt.Sprintf("key %s: DELETED event carries Treasure/OldTreasure", k), viewOf(me.r))
@@ -501,7 +504,19 @@ func (rc *roundCheck) run() {
 		}
 		fin, finPresent := rc.stateF[k]
 		if present != finPresent || (present && fin.Val != cur.Val) {
-			rc.fail("state:events-do-not-lead-to-final-state:"+rc.mode(), fmt.Sprintf("key %s: replaying the events gives present=%v value=%s, the swamp holds present=%v value=%s", k, present, cur.Val, finPresent, fin.Val), nil)
+			how := "plain"
+			sawDel := false
+			for _, me := range evs {
+				switch me.r.Msg.GetStatus() {
+				case hydrapb.Status_DELETED:
+					sawDel = true
+				case hydrapb.Status_NEW:
+					if sawDel {
+						how = "key-removed-and-re-created-in-the-round"
+					}
+				}
+			}
+			rc.fail("state:events-do-not-lead-to-final-state:"+how+":"+rc.mode(), fmt.Sprintf("key %s: replaying the events gives present=%v value=%s, the swamp holds present=%v value=%s", k, present, cur.Val, finPresent, fin.Val), rc.dumpKey(k))
 		}
 	}
 }
@@ -511,6 +526,26 @@ func (rc *roundCheck) dumpWith(r rec) any {
 	m["event"] = viewOf(r)
 	m["state_before_round"] = rc.state0
 	return m
+}
+
+func (rc *roundCheck) dumpKey(k string) any {
+	var evs []evView
+	for _, r := range rc.events {
+		if r.Msg != nil && evKey(r.Msg) == k {
+			evs = append(evs, viewOf(r))
+		}
+	}
+	var reqs []string
+	for _, e := range rc.execs {
+		hit := e.Op.Key == k || e.Op.K == "shiftExp"
+		for _, kk := range e.Op.Keys {
+			hit = hit || kk == k
+		}
+		if hit {
+			reqs = append(reqs, fmt.Sprintf("%s key=%s%v val=%s -> %s %s", e.label(), e.Op.Key, e.Op.Keys, e.Val, e.Status, e.Err))
+		}
+	}
+	return map[string]any{"key": k, "events_of_the_key": evs, "requests_on_the_key": reqs, "state_before_round": rc.state0[k], "state_after_round": rc.stateF[k]}
 }
 
 // dump renders what the subscriber got in this round and what the writers were answered.
